@@ -2,7 +2,20 @@ package main
 
 import (
 	"fmt"
+
+	"github.com/database64128/shadowsocks-go/ss2022"
 )
+
+// replayWindowNs is "the replay window" of the statement: the time during which the code keeps salts /
+// accepts timestamps (exported ss2022.ReplayWindowDuration), and never less than the (2*MaxEpochDiff+1) s
+// that timestamp validation in whole seconds makes necessary (C03).
+func replayWindowNs() int64 {
+	w := int64(ss2022.ReplayWindowDuration)
+	if need := (2*int64(ss2022.MaxEpochDiff) + 1) * sec; w < need {
+		w = need
+	}
+	return w
+}
 
 // The property oracle, written from the statement of C18 (not from the model):
 //
@@ -19,21 +32,20 @@ import (
 
 // Documented constants (README.md, field comments): independent of Gen.
 const (
-	docReplayWindowNs  = 60 * sec
-	docMinMTU          = 1280
-	docMaxBatch        = 1024
-	docMinCapacity     = 64
-	docRejectDefault   = "ForceReset"  // README "TCP Reject Policy": ForceReset (default)
-	docPaddingDefault  = "PadPlainDNS" // README "Packet Padding Policy": PadPlainDNS (default)
-	docNatTimeoutNs    = 300 * sec     // "The default value is 5 minutes."
-	docRelayBatch      = 256
-	docRecvBatch       = 64
-	docSendCapacity    = 1024
-	docFilterSize      = 256
-	docClientNetwork   = "ip"
-	docDefaultClient   = "direct" // README: `clients` omitted -> a default "direct" client
-	docPSKLen128       = 16
-	docPSKLen256       = 32
+	docMinMTU         = 1280
+	docMaxBatch       = 1024
+	docMinCapacity    = 64
+	docRejectDefault  = "ForceReset"  // README "TCP Reject Policy": ForceReset (default)
+	docPaddingDefault = "PadPlainDNS" // README "Packet Padding Policy": PadPlainDNS (default)
+	docNatTimeoutNs   = 300 * sec     // "The default value is 5 minutes."
+	docRelayBatch     = 256
+	docRecvBatch      = 64
+	docSendCapacity   = 1024
+	docFilterSize     = 256
+	docClientNetwork  = "ip"
+	docDefaultClient  = "direct" // README: `clients` omitted -> a default "direct" client
+	docPSKLen128      = 16
+	docPSKLen256      = 32
 )
 
 func docKeyLen(p string) int {
@@ -110,8 +122,8 @@ func checklist(c *ConfigC) []viol {
 			add("mtu:server", "server %q: UDP with mtu %d", s.Name, s.MTU)
 		}
 		for _, u := range uls {
-			if isSS(s.Proto) && u.Nat != 0 && u.Nat < docReplayWindowNs {
-				add("nat-timeout", "server %q: ss2022 UDP listener with natTimeout %dns", s.Name, u.Nat)
+			if isSS(s.Proto) && u.Nat != 0 && u.Nat < replayWindowNs() {
+				add("nat-timeout", "server %q: ss2022 UDP listener with natTimeout %dns, the replay window is %dns", s.Name, u.Nat, replayWindowNs())
 			}
 			if u.RB < 0 || u.RB > docMaxBatch || u.SB < 0 || u.SB > docMaxBatch {
 				add("range:batch", "server %q: batch sizes %d/%d", s.Name, u.RB, u.SB)
